@@ -3,6 +3,7 @@ from __future__ import annotations
 
 from sa.astx import src
 from sa.selftest import Mutant, Silent
+from sa.props._lib_k import no_crash
 from sa.props._lib_k import EVENT, HOSTILE, SAFE, EscapeAnalysis
 
 PROPERTY = "C55"
@@ -103,9 +104,9 @@ def _check_legacy(ctx):
 def check(ctx):
     total = set()
     with ctx.section("twisted.logger._format"):
-        total |= _check_new_style(ctx)
+        total |= no_crash('_check_new_style', _check_new_style, ctx)
     with ctx.section("twisted.python.log"):
-        total |= _check_legacy(ctx)
+        total |= no_crash('_check_legacy', _check_legacy, ctx)
     ctx.extra["assumed_total_callees"] = sorted(total)
 
 
